@@ -37,6 +37,7 @@ from oqupy.backends.tempo_backend import TempoBackend
 from vf.core import Case, Ob
 from vf import lib, sym
 from vf.poly import ob_eq_poly
+from vf.pointcheck import Guard
 from vf.sym import S
 from vf.env import NpProxy, BUILTIN_SHADOWS
 
@@ -400,7 +401,7 @@ class Cdwf(Case):
                     tn = start + n * dt
                     obs.append(Ob.eq("field %d = exact integral" % n, fields[i],
                                      a0 + eom.alpha * (n * dt) + eom.beta * (tn * tn - start * start) / 2))
-        return obs
+        return Guard(inp).all(obs)
 
 
 # --------------------------------------------------------------------------
@@ -516,12 +517,22 @@ class Mft(Case):
                 tn = start + n * dt
                 obs.append(Ob.eq("field %d = exact integral" % n, out[n][2],
                                  a0 + eom.alpha * (n * dt) + eom.beta * (tn * tn - start * start) / 2))
-        return obs
+        return Guard(inp).all(obs)
 
 
 # --------------------------------------------------------------------------
 # H1 / both methods on the same influences
 # --------------------------------------------------------------------------
+def _mk_eq(som):
+    """plain obligation, or (after the exact point evaluation found no difference) the normalised one"""
+    def mk(inp, label, g, e):
+        ob = Guard(inp).refute(Ob.eq(label, g, e))
+        if som and type(ob) is Ob:
+            return ob_eq_poly(inp, label, g, e)
+        return ob
+    return mk
+
+
 class Cross(Case):
     functions = Cdwf.functions + Mft.functions + ("MeanFieldTempo.compute", "MeanFieldTempo._get_num_step", "Control.get_controls",
                                                   "PtTempoBackend.*", "SimpleProcessTensor.compute_caps")
@@ -570,11 +581,11 @@ class Cross(Case):
             pairs = [(N, 0)]
         for n, i in pairs:
             if n < len(f1) and i < len(f2):
-                mk = ob_eq_poly if self.som else (lambda i_, label, g, e: Ob.eq(label, g, e))
+                mk = _mk_eq(self.som)
                 obs.append(mk(inp, "field %d" % n, _scal(f2[i]), _scal(f1[n])))
                 for s in range(len(dims)):
                     obs.append(mk(inp, "system %d state %d" % (s, n), s2[s][i], s1[s][n]))
-        return obs
+        return Guard(inp).all(obs)
 
 
 # --------------------------------------------------------------------------
@@ -679,7 +690,7 @@ class H2(Case):
                                          [t, t + dt / 2, t + dt / 2, t + dt]))
                         obs.append(Ob.holds("step %d: epsrel and subdivision limit forwarded" % step,
                                             all(c[2] == 1e-6 and c[3] == self.subdiv for c in lims)))
-        return obs
+        return Guard(inp).all(obs)
 
 
 # --------------------------------------------------------------------------
@@ -836,7 +847,7 @@ class H2D(Case):
                 exp = lindblad_oracle(inp, mdl.ham(ts, f + g * (ts - tn)), [x(ts) for x in gam], [x(ts) for x in lops]) * w
                 obs.append(Ob.eq("step %d: %s half-step generator, every ingredient at the sample time" % (step, half),
                                  ex1.args[h], exp))
-        return obs
+        return Guard(inp).all(obs)
 
 
 
